@@ -9,7 +9,7 @@ Local Open Scope string_scope.
 Local Open Scope Z_scope.
 
 Definition with_obs (c : case) (o : obs) : case :=
-  {| c_results := c_results c; c_out := c_out c; c_zero := c_zero c; c_dec := c_dec c; c_obs := o |}.
+  {| c_body_verb := c_body_verb c; c_results := c_results c; c_out := c_out c; c_zero := c_zero c; c_dec := c_dec c; c_obs := o |}.
 
 Lemma oval_eqb_refl : forall a, oval_eqb a a = true.
 Proof. destruct a; simpl; [reflexivity | apply String.eqb_refl]. Qed.
@@ -39,11 +39,18 @@ Proof.
   intros c o Hwf Hsn Hlaw Hm.
   pose proof (model_obs_accepted c o Hm) as Hacc.
   unfold model_obs in Hm.
-  rewrite (method_returns_refines_spec val nat (fun _ _ => c_dec c) (c_results c) (c_out c) Hwf Hacc) in Hm.
+  destruct (scenario_ok (c_body_verb c) (c_out c)) eqn:Hsc.
+  2:{ (* impossible scenario: the model returns nothing *)
+      exfalso. destruct (c_out c) as [[] x|r]; try discriminate Hsc.
+      destruct (c_body_verb c); [discriminate Hsc|].
+      rewrite (mr_impossible_scenario val nat (fun _ _ => c_dec c) (c_results c) x Hwf Hacc) in Hm.
+      discriminate Hm. }
+  rewrite (method_returns_refines_spec val nat (fun _ _ => c_dec c) (c_body_verb c) (c_results c) (c_out c) Hwf Hacc Hsc) in Hm.
+  clear Hsc.
   unfold Pb, with_obs; simpl.
   rewrite (declared_arity_single _ Hsn).
   unfold law_ok in Hlaw.
-  destruct c as [rs out zero dec0 obs0]; simpl in *.
+  destruct c as [bv rs out zero dec0 obs0]; simpl in *.
   destruct rs as [|a [|b [|d [|e rest]]]]; simpl in Hacc; try contradiction.
   - (* (response, error) *)
     unfold spec_returns, spec_events in Hm. simpl in Hm.
